@@ -121,6 +121,17 @@ pub enum Topo {
     UnsendNotUtf8,
     /// control: the second destination is a second target of the harness (reachable, it answers)
     UnsendControl,
+    /// UDP remote only: the client is started with a fixed-target TCP remote (to an echo target of
+    /// the harness) AND a `udp` remote whose configured target host is a name of 256 octets (one
+    /// more than a datagram frame can carry: every datagram for it is refused at the sender, which
+    /// must have no other effect). A TCP connection through the TCP remote echoes a block; ONE UDP
+    /// packet is sent to the UDP remote's local port; `OVERLONG_PAUSE_MS` later the SAME TCP
+    /// connection must echo another block, a second TCP connection through the remote must work
+    /// and `client_main_inner` must still be running
+    OverlongHost256,
+    /// control: the same with a name of 255 octets (the longest a datagram frame can carry; it
+    /// does not resolve, the server simply cannot forward the datagram)
+    OverlongHost255,
 }
 
 /// the second destination of an unsendable-destination topology
@@ -235,6 +246,16 @@ pub const UNSEND_PRUNE_MARGIN_S: u64 = 2;
 /// the keys of the unsendable-destination scenarios (a variant name follows)
 pub const UNSEND_LOST_KEY: &str = "udp.reply.lost-after-unsendable-destination";
 pub const UNSEND_PORT_KEY: &str = "udp.source-port-changed-after-unsendable-destination";
+/// overlong-target-host scenarios: length of the ONE datagram sent to the UDP remote ...
+pub const OVERLONG_LEN: usize = 32;
+/// ... length of each block echoed over a TCP connection ...
+pub const OVERLONG_TCP_LEN: usize = 1000;
+/// ... time between the datagram and the next use of the TCP connection ...
+pub const OVERLONG_PAUSE_MS: u64 = 500;
+/// ... port of the UDP remote's target (discard; nothing is ever sent there) ...
+pub const OVERLONG_DST_PORT: u16 = 9;
+/// ... and what their keys begin with (what was found and `.256` / `.255-control` follow)
+pub const OVERLONG_KEY: &str = "udp.overlong-host";
 /// leg number inside the payload of the control exchange of the stray-datagram scenarios (no real leg has it)
 const CONTROL_LEG: usize = 3;
 
@@ -259,6 +280,18 @@ impl Topo {
     /// the unsendable-destination topologies (SOCKS5 UDP only, one payload length, both tiers;
     /// about `UNSEND_DELAY_MS` + the start of a tunnel of wall time each, mostly asleep); the last one is the control
     pub const UNSENDABLE: [Topo; 5] = [Topo::UnsendName, Topo::UnsendPort0, Topo::UnsendBroadcast, Topo::UnsendNotUtf8, Topo::UnsendControl];
+    /// the overlong-target-host topologies (UDP remote only, both tiers; about
+    /// `OVERLONG_PAUSE_MS` + the start of a tunnel of wall time each); the last one is the control
+    pub const OVERLONG: [Topo; 2] = [Topo::OverlongHost256, Topo::OverlongHost255];
+    /// octets of the target host of the UDP remote of an overlong-target-host topology, and what
+    /// its violation keys end in
+    pub fn overlong(self) -> Option<(usize, &'static str)> {
+        match self {
+            Topo::OverlongHost256 => Some((256, "256")),
+            Topo::OverlongHost255 => Some((255, "255-control")),
+            _ => None,
+        }
+    }
     /// the second destination of an unsendable-destination topology, its name inside violation
     /// keys and topology names, and why the server cannot send to it
     pub fn unsendable(self) -> Option<(SecondDst, &'static str, &'static str)> {
@@ -345,10 +378,12 @@ impl Topo {
             Topo::UnsendBroadcast => "1-association-slow-target-then-unsendable-destination-limited-broadcast",
             Topo::UnsendNotUtf8 => "1-association-slow-target-then-unsendable-destination-non-utf8-name",
             Topo::UnsendControl => "1-association-slow-target-then-unsendable-destination-control-reachable-destination",
+            Topo::OverlongHost256 => "tcp-remote-beside-udp-remote-with-target-host-of-256-octets",
+            Topo::OverlongHost255 => "tcp-remote-beside-udp-remote-with-target-host-of-255-octets-control",
         }
     }
     pub fn parse(s: &str) -> Option<Self> {
-        Self::ALL.into_iter().chain(Self::SLOW).chain(Self::STRAY).chain(Self::FAMILIES).chain(Self::DUAL_LISTENER).chain(Self::UNSENDABLE).find(|e| e.name() == s)
+        Self::ALL.into_iter().chain(Self::SLOW).chain(Self::STRAY).chain(Self::FAMILIES).chain(Self::DUAL_LISTENER).chain(Self::UNSENDABLE).chain(Self::OVERLONG).find(|e| e.name() == s)
     }
 }
 
@@ -375,6 +410,8 @@ impl UdpCase {
             "application_uses": self.topo.dual_listener().map(|v6| if v6 { "[::1] for the control connection, for its UDP socket and (BND.ADDR being unspecified) for the relay address" } else { "127.0.0.1 for the control connection, for its UDP socket and (BND.ADDR being unspecified) for the relay address" }),
             "slow_target_answers_exchange_0_after_ms": self.topo.unsendable().map(|_| UNSEND_DELAY_MS),
             "second_destination_of_exchange_1": self.topo.unsendable().map(|(d, _, why)| format!("{} ({why}); sent once, as soon as target A has exchange 0", d.describe())),
+            "udp_remote_target_host": self.topo.overlong().map(|(n, _)| format!("{n} x 'a' (remote specification 127.0.0.1:PORT:aaa...a:{OVERLONG_DST_PORT}/udp), beside the TCP remote 127.0.0.1:PORT:127.0.0.1:ECHO-PORT of the same client")),
+            "sequence": self.topo.overlong().map(|_| format!("TCP connection 0 through the TCP remote echoes {OVERLONG_TCP_LEN} bytes; ONE datagram of payload_len bytes to the UDP remote's local port; {OVERLONG_PAUSE_MS} ms; connection 0 echoes {OVERLONG_TCP_LEN} more bytes; a new connection 1 echoes {OVERLONG_TCP_LEN} bytes; client_main_inner is still running")),
             "targets": if self.topo.two_families() { json!((0..self.exchanges()).map(|q| if (self.target_idx(0, q) == 0) == (self.topo == Topo::TwoFamilies) { "127.0.0.1:P (ATYP 1)" } else { "[::1]:Q (ATYP 4)" }).collect::<Vec<_>>()) } else { Value::Null },
             "payload_rule": "payload length of exchange seq = len, except in the varying-lengths topology (len, 3, len+500, 0, len+1); request(len, leg, seq): len 1 -> [0x40|leg<<4|seq]; len>=2 -> [0xC0|leg, seq, xorshift64* stream]; reply = request XOR mask bytewise, mask 0xA5 for target A and 0x5A for target B; exchange seq goes to target seq%2 in the two-target topologies; see c01_udp.rs",
             "requests_hex": (0..self.legs().len()).map(|l| (0..self.exchanges().min(4)).map(|q| { let r = request(self.len_at(q), l, q); vcommon::report::hex(&r[..r.len().min(16)]) }).collect::<Vec<_>>()).collect::<Vec<_>>(),
@@ -399,6 +436,7 @@ impl UdpCase {
             (Topo::DualV4 | Topo::DualV6, _) => vec![(0, 0)],
             (Topo::DualV4Three | Topo::DualV6Three, _) => vec![(0, 0), (1, 1), (2, 2)],
             (Topo::UnsendName | Topo::UnsendPort0 | Topo::UnsendBroadcast | Topo::UnsendNotUtf8 | Topo::UnsendControl, _) => vec![(0, 0)],
+            (Topo::OverlongHost256 | Topo::OverlongHost255, _) => vec![(0, 0)],
         }
     }
     /// number of request datagrams (with distinct payloads) a leg sends
@@ -410,6 +448,8 @@ impl UdpCase {
             Topo::Varying => 5,
             // A, B, A, B
             Topo::TwoFamilies | Topo::TwoFamilies6 => 4,
+            // ONE datagram, never answered
+            Topo::OverlongHost256 | Topo::OverlongHost255 => 1,
             _ => EXCHANGES,
         }
     }
@@ -422,6 +462,10 @@ impl UdpCase {
         }
         if self.topo.dual_listener().is_some() || self.topo.unsendable().is_some() {
             return self.kind.socks();
+        }
+        if self.topo.overlong().is_some() {
+            // (a SOCKS5 UDP header cannot carry a name of more than 255 octets; a remote specification can)
+            return self.kind == UKind::Remote;
         }
         !(matches!(self.topo, Topo::TwoPorts | Topo::TwoHosts) || self.topo.stray().is_some()) || self.kind.socks()
     }
@@ -499,6 +543,10 @@ pub struct UdpStats {
     pub unsendable_judged: u64,
     /// ... of which: the answer reached the local client only after `UNSEND_LOST_AFTER_MS` (late, not lost)
     pub unsendable_answer_late: u64,
+    /// overlong-target-host scenarios that went through their whole sequence without a finding
+    pub overlong_completed: u64,
+    /// ... bytes echoed over the TCP connections of those scenarios (before and after the datagram)
+    pub overlong_tcp_bytes_echoed: u64,
 }
 
 pub struct UdpOutcome {
@@ -1160,6 +1208,251 @@ async fn run_unsendable(case: UdpCase, sock: Arc<UdpSocket>, log: Log, note: Arc
     res
 }
 
+/// TCP target of the overlong-target-host scenarios: every connection gets back what it sends.
+async fn echo_target(l: tokio::net::TcpListener, accepted: Arc<std::sync::atomic::AtomicUsize>) {
+    use tokio::io::{AsyncReadExt, AsyncWriteExt};
+    // (dropped, and with it every connection task, when this task is aborted)
+    let mut conns = tokio::task::JoinSet::new();
+    loop {
+        let Ok((mut s, _)) = l.accept().await else {
+            tokio::time::sleep(Duration::from_millis(1)).await;
+            continue;
+        };
+        accepted.fetch_add(1, std::sync::atomic::Ordering::SeqCst);
+        let _ = s.set_nodelay(true);
+        conns.spawn(async move {
+            let mut buf = vec![0u8; 16384];
+            loop {
+                match s.read(&mut buf).await {
+                    Ok(0) | Err(_) => return,
+                    Ok(n) => {
+                        if s.write_all(&buf[..n]).await.is_err() {
+                            return;
+                        }
+                    }
+                }
+            }
+        });
+    }
+}
+
+/// Write `block` to `s` and read it back. Err((what happened, deadline-type)): the connection
+/// ended or gave an error or other bytes (false), or nothing more came before `until` (true).
+async fn echo_exchange(s: &mut TcpStream, block: &[u8], until: Instant) -> Result<(), (String, bool)> {
+    use tokio::io::{AsyncReadExt, AsyncWriteExt};
+    let started = Instant::now();
+    let mut got: Vec<u8> = Vec::with_capacity(block.len());
+    let io = async {
+        if let Err(e) = s.write_all(block).await {
+            return Err(format!("writing {} bytes failed: {e} ({:?})", block.len(), e.kind()));
+        }
+        let mut buf = vec![0u8; 4096];
+        while got.len() < block.len() {
+            match s.read(&mut buf).await {
+                Ok(0) => return Err(format!("{} bytes written, then the connection was closed (EOF) after {} of them had come back", block.len(), got.len())),
+                Ok(n) => got.extend_from_slice(&buf[..n]),
+                Err(e) => return Err(format!("{} bytes written, then reading failed after {} of them had come back: {e} ({:?})", block.len(), got.len(), e.kind())),
+            }
+        }
+        Ok(())
+    };
+    match tokio::time::timeout(until.saturating_duration_since(started), io).await {
+        Ok(Ok(())) if got == block => Ok(()),
+        Ok(Ok(())) => {
+            let at = got.iter().zip(block).position(|(a, b)| a != b).unwrap_or(block.len());
+            Err((format!("{} bytes written, {} bytes came back and they differ from offset {at} on", block.len(), got.len()), false))
+        }
+        Ok(Err(m)) => Err((format!("{m}, {} ms after the write began", started.elapsed().as_millis()), false)),
+        Err(_) => Err((format!("{} bytes written, only {} of them had come back {} ms later (connection still open)", block.len(), got.len(), started.elapsed().as_millis()), true)),
+    }
+}
+
+/// The overlong-target-host scenarios (see `Topo::OverlongHost256`): one client with a TCP remote
+/// to an echo target and a `udp` remote whose target host has 256 (control: 255) octets.
+///
+/// Judgement (keys `OVERLONG_KEY`.<what>.<variant>), all about what happens AFTER the one datagram
+/// was sent to the UDP remote's local port (everything before it worked, or the scenario ends
+/// with a key `OVERLONG_KEY`.before-the-datagram.*):
+///  * `tcp-stream-broken`: the TCP connection that echoed a block before the datagram does not
+///    echo the next one (definitive when it was closed, reset or echoed other bytes; deadline-type
+///    when it is merely silent until the deadline);
+///  * `new-connection-refused`: a new connection to the TCP remote's local port is not accepted,
+///    or is accepted and does not echo;
+///  * `client-ended`: `client_main_inner` has returned.
+async fn run_overlong(envr: &Env, case: &UdpCase, deadline_s: u64) -> UdpOutcome {
+    use std::sync::atomic::{AtomicUsize, Ordering};
+    let t0 = Instant::now();
+    let deadline = t0 + Duration::from_secs(deadline_s);
+    let lab = case.label();
+    let mut failures: Vec<Failure> = Vec::new();
+    let mut stats = UdpStats::default();
+    let machinery = |m: String| UdpOutcome {
+        failures: vec![Failure { key: "machinery".into(), desc: format!("{lab}: {m}"), deadline: false }],
+        obs: json!({"machinery": true}),
+        port_race: false,
+        stats: UdpStats::default(),
+        wall: t0.elapsed(),
+    };
+    let Some((host_len, variant)) = case.topo.overlong() else {
+        return machinery("not an overlong-target-host topology".into());
+    };
+    let host = "a".repeat(host_len);
+
+    // ---- target: TCP echo
+    let listener = match tokio::net::TcpListener::bind("127.0.0.1:0").await {
+        Ok(l) => l,
+        Err(e) => return machinery(format!("bind the echo target: {e}")),
+    };
+    let echo_addr = listener.local_addr().expect("echo addr");
+    let accepted = Arc::new(AtomicUsize::new(0));
+    let echo_task = tokio::spawn(echo_target(listener, accepted.clone()));
+
+    // ---- subject: one client, two remotes
+    let (lt, lu) = (env::lease_port(false), env::lease_port(true));
+    let remotes = vec![format!("127.0.0.1:{}:127.0.0.1:{}", lt.port, echo_addr.port()), format!("127.0.0.1:{}:{host}:{OVERLONG_DST_PORT}/udp", lu.port)];
+    let mut tunnel: Tunnel = match env::start_tunnel(envr, &remotes).await {
+        Ok(t) => t,
+        Err(e) => {
+            echo_task.abort();
+            return machinery(e);
+        }
+    };
+    let client_done = tunnel.client_done.clone();
+    let tcp_entry = SocketAddr::from(([127, 0, 0, 1], lt.port));
+    let udp_entry = SocketAddr::from(([127, 0, 0, 1], lu.port));
+    let what = format!("one client with the remotes 127.0.0.1:{}:127.0.0.1:{} (TCP, to an echo target) and 127.0.0.1:{}:<{host_len} x 'a'>:{OVERLONG_DST_PORT}/udp", lt.port, echo_addr.port(), lu.port);
+    let blocks: Vec<Vec<u8>> = vec![request(OVERLONG_TCP_LEN, 0, 0), request(OVERLONG_TCP_LEN, 0, 1), request(OVERLONG_TCP_LEN, 1, 0)];
+
+    // (key without its head and variant, description, deadline-type)
+    let mut found: Vec<(String, String, bool)> = Vec::new();
+    let mut steps: Vec<&'static str> = Vec::new();
+    let mut echoed = 0u64;
+    // the datagram left the harness while the client was running: what follows is judged
+    let mut sent_at: Option<Instant> = None;
+    let mut conn0: Option<TcpStream> = None;
+    let mut conn1: Option<TcpStream> = None;
+    'seq: {
+        // ---- 1. a TCP connection through the TCP remote: it works
+        let mut s = match env::connect_tcp_entry(tcp_entry, &client_done, deadline).await {
+            Ok(s) => s,
+            // (the subject status below says how it ended)
+            Err(ConnectFail::ClientExited) => break 'seq,
+            Err(ConnectFail::Deadline(m)) => {
+                found.push(("before-the-datagram.tcp-entry-unreachable".into(), format!("{what}: cannot connect to the TCP remote's local port within {deadline_s} s: {m}"), true));
+                break 'seq;
+            }
+        };
+        let r = echo_exchange(&mut s, &blocks[0], deadline).await;
+        conn0 = Some(s);
+        if let Err((m, dl)) = r {
+            if !client_done.load(Ordering::SeqCst) {
+                found.push(("before-the-datagram.tcp-echo-failed".into(), format!("{what}: the first TCP connection through the TCP remote, before any datagram was sent: {m}"), dl));
+            }
+            break 'seq;
+        }
+        echoed += blocks[0].len() as u64;
+        steps.push("connection-0-echoed-before");
+        match env::wait_udp_bound(lu.port, &client_done, deadline).await {
+            Ok(()) => {}
+            Err(ConnectFail::ClientExited) => break 'seq,
+            Err(ConnectFail::Deadline(m)) => {
+                found.push(("before-the-datagram.udp-entry-unreachable".into(), format!("{what}: the UDP remote never bound its port: {m}"), true));
+                break 'seq;
+            }
+        }
+        // ---- 2. ONE datagram to the UDP remote
+        let usock = match UdpSocket::bind("127.0.0.1:0").await {
+            Ok(s) => s,
+            Err(e) => {
+                found.push(("machinery".into(), format!("bind the local udp client: {e}"), false));
+                break 'seq;
+            }
+        };
+        if client_done.load(Ordering::SeqCst) {
+            break 'seq;
+        }
+        if let Err(e) = usock.send_to(&request(case.size, 0, 0), udp_entry).await {
+            found.push(("machinery".into(), format!("cannot send the datagram: {e}"), false));
+            break 'seq;
+        }
+        sent_at = Some(Instant::now());
+        steps.push("datagram-sent");
+        // ---- 3. time for whatever the datagram sets off
+        tokio::time::sleep(Duration::from_millis(OVERLONG_PAUSE_MS)).await;
+        let after = |t: Instant| t.elapsed().as_millis();
+        let history = format!("{what}: a TCP connection through the TCP remote echoed {OVERLONG_TCP_LEN} bytes; then ONE datagram of {} bytes was sent to the UDP remote's local port {udp_entry} (its target host has {host_len} octets: {})", case.size, if host_len > 255 { "one more than a datagram frame carries, the datagram is refused at the sender and that is all that may happen" } else { "the most a datagram frame carries; the name does not resolve, the server cannot forward the datagram and that is all that may happen" });
+        // ---- 4. the SAME TCP connection
+        if let (Some(s), Some(t)) = (conn0.as_mut(), sent_at) {
+            match echo_exchange(s, &blocks[1], deadline).await {
+                Ok(()) => {
+                    echoed += blocks[1].len() as u64;
+                    steps.push("connection-0-echoed-after");
+                }
+                Err((m, dl)) => found.push(("tcp-stream-broken".into(), format!("{history}; {OVERLONG_PAUSE_MS} ms later the SAME TCP connection was used again: {m} ({} ms after the datagram). No datagram terminates the connection or disturbs stream traffic", after(t)), dl)),
+            }
+        }
+        // ---- 5. a new TCP connection through the remote
+        if let Some(t) = sent_at {
+            match tokio::time::timeout(deadline.saturating_duration_since(Instant::now()), TcpStream::connect(tcp_entry)).await {
+                Ok(Ok(mut s)) => {
+                    let _ = s.set_nodelay(true);
+                    let r = echo_exchange(&mut s, &blocks[2], deadline).await;
+                    conn1 = Some(s);
+                    match r {
+                        Ok(()) => {
+                            echoed += blocks[2].len() as u64;
+                            steps.push("connection-1-echoed");
+                        }
+                        Err((m, dl)) => found.push(("new-connection-refused".into(), format!("{history}; afterwards a NEW connection to the TCP remote's local port {tcp_entry} was accepted but not served: {m} ({} ms after the datagram; the echo target has accepted {} connection(s) in all). Local connections keep working", after(t), accepted.load(Ordering::SeqCst)), dl)),
+                    }
+                }
+                Ok(Err(e)) => found.push(("new-connection-refused".into(), format!("{history}; afterwards a NEW connection to the TCP remote's local port {tcp_entry} failed: {e} ({:?}; {} ms after the datagram): nobody listens there any more. Local connections keep working", e.kind(), after(t)), false)),
+                Err(_) => found.push(("new-connection-refused".into(), format!("{history}; afterwards a NEW connection to the TCP remote's local port {tcp_entry} was not established within the deadline of {deadline_s} s"), true)),
+            }
+        }
+    }
+
+    // ---- 6. subject status
+    let mut port_race = false;
+    if let Some(ex) = tunnel.client_exit().await {
+        if ex.addr_in_use {
+            port_race = true;
+        }
+        match sent_at {
+            Some(t) if !ex.addr_in_use => failures.push(Failure {
+                key: format!("{OVERLONG_KEY}.client-ended.{variant}"),
+                desc: format!("{lab}: {what}: everything worked until ONE datagram of {} bytes was sent to the UDP remote's local port (target host of {host_len} octets); {} ms later client_main_inner has ended: {}{}. A datagram is refused or lost, the client as a whole keeps running", case.size, t.elapsed().as_millis(), ex.text, if ex.panicked { " (panic)" } else { "" }),
+                deadline: false,
+            }),
+            _ => failures.push(Failure { key: if ex.panicked { "subject.client-panicked".into() } else { "subject.client-exited".into() }, desc: format!("{lab}: the penguin client ended before the datagram was sent: {}", ex.text), deadline: false }),
+        }
+    }
+    if tunnel.server_finished() {
+        failures.push(Failure { key: "subject.server-exited".into(), desc: format!("{lab}: run_listener ended"), deadline: false });
+    }
+    echo_task.abort();
+    tunnel.stop();
+    drop((conn0, conn1));
+    for (k, d, dl) in found {
+        let key = if k == "machinery" { k } else { format!("{OVERLONG_KEY}.{k}.{variant}") };
+        failures.push(Failure { key, desc: format!("{lab}: {d}"), deadline: dl });
+    }
+    drop((lt, lu));
+    if failures.is_empty() {
+        if steps.len() == 4 {
+            stats.overlong_completed = 1;
+            stats.overlong_tcp_bytes_echoed = echoed;
+        } else {
+            // cannot happen: a sequence that stops early leaves a finding or a client that has ended
+            failures.push(Failure { key: "machinery".into(), desc: format!("{lab}: the sequence stopped after {steps:?} without a finding"), deadline: false });
+        }
+    }
+    let mut keys: Vec<String> = failures.iter().map(|f| f.key.clone()).collect();
+    keys.sort();
+    keys.dedup();
+    UdpOutcome { obs: json!({"failure_keys": keys, "steps": steps, "tcp_bytes_echoed": echoed, "echo_target_accepted": accepted.load(Ordering::SeqCst)}), failures, port_race, stats, wall: t0.elapsed() }
+}
+
 /// The steady sender: one datagram per second, a silent target, one reply at the end.
 #[allow(clippy::too_many_arguments)]
 async fn run_steady(case: UdpCase, sock: Arc<UdpSocket>, log: Log, note: Arc<Notify>, entry: SocketAddr, target: (SocketAddr, Option<String>), tsock: Arc<UdpSocket>, tlog: Log, short: bool) -> LegResult {
@@ -1288,6 +1581,10 @@ pub async fn run_udp(envr: &Env, case: &UdpCase, deadline_s: u64, short_waits: b
     if let Some(why) = case.topo.unavailable() {
         // (the matrix and the replay leave these points out and say so; nobody else asks)
         return machinery(format!("{lab}: cannot be run on this machine: {why}"));
+    }
+    if case.topo.overlong().is_some() {
+        // (a scenario of its own: TCP connections beside ONE datagram that is never answered)
+        return run_overlong(envr, case, deadline_s).await;
     }
     let n_targets = case.n_targets();
     let mut tsocks: Vec<Arc<UdpSocket>> = Vec::new();
